@@ -154,6 +154,9 @@ impl<T> SocksRequest<T> {
         socket.write_u8(self.cmd).await.context("cmd")?;
         let (dst, dport, target) = match &self.target {
             TargetAddress::DomainPort(domain, port) => {
+                if domain.as_bytes().contains(&0) {
+                    bail!("domain name not representable in socks4a: {:?}", domain)
+                }
                 ([0, 0, 0, 1], *port, Some(domain.as_bytes()))
             }
             TargetAddress::SocketAddr(a) => {
@@ -168,6 +171,9 @@ impl<T> SocksRequest<T> {
         socket.write_u16(dport).await.context("dport")?;
         socket.write(&dst).await.context("dport")?;
         let cid = auth.auth_v4(&self.auth).await?;
+        if cid.as_bytes().contains(&0) {
+            bail!("user id not representable in socks4: {:?}", cid)
+        }
         socket.write(cid.as_bytes()).await.context("cid")?;
         socket.write_u8(0).await.context("cid")?;
         if let Some(target) = target {
@@ -207,6 +213,9 @@ impl<T> SocksRequest<T> {
         let (t, addr, port) = match &self.target {
             TargetAddress::DomainPort(domain, port) => {
                 let mut x = Vec::from(domain.as_bytes());
+                if x.len() > 255 {
+                    bail!("domain name too long for socks5: {} bytes", x.len())
+                }
                 x.insert(0, x.len() as u8);
                 (SOCKS_ATYP_DOMAIN, x, *port)
             }
@@ -335,6 +344,9 @@ impl SocksAuthClient<Option<(String, String)>> for PasswordAuth {
             SOCKS_AUTH_NONE => Ok(()),
             SOCKS_AUTH_USRPWD => {
                 let (user, pass) = data.as_ref().unwrap();
+                if user.len() > 255 || pass.len() > 255 {
+                    bail!("user name or password too long for socks5")
+                }
                 socket.write_u8(1).await.context("auth version")?;
                 socket
                     .write_u8(user.len() as u8)
